@@ -378,6 +378,15 @@ func (o *oracleC10) before(c *stepCtx) {
 	for _, a := range op.A {
 		if sw.V[a] == nil {
 			sw.V[a] = new(decimal.Decimal).Copy(c.w.V[a])
+			if c.idx%4 == 3 && a != op.Z {
+				// same value and attributes, shortest mantissa (no low-order zero words)
+				var y *decimal.Decimal
+				verifrt.Shadow(func() { y = rebuild(c.w.V[a], true) })
+				if y != nil {
+					sw.V[a] = y
+					o.cnt["operands_rebuilt_minimal"]++
+				}
+			}
 		}
 	}
 	z := c.w.V[op.Z]
